@@ -3,6 +3,7 @@ package main
 import (
 	"fmt"
 	"math"
+	"os"
 	"strings"
 
 	"github.com/lindb/lindb/verif/internal/node"
@@ -39,12 +40,15 @@ type memTracker struct {
 	// database of a family (a buffer is shared by all metrics using that index)
 	fieldIdx map[string]map[string]int
 	memIdx   map[famKey]map[int]bool
+	// series written per metric and shard since the engine was opened (the shard level memory series index)
+	memSeries map[string]map[string]bool
 	seq      int
 	events   int // writes that shrank an end offset
 }
 
 type contribMeta struct {
 	metric string
+	series string
 	slot   int
 	field  string
 }
@@ -65,7 +69,8 @@ type fieldWin struct {
 func newMemTracker(shards int) *memTracker {
 	return &memTracker{shards: shards, wins: map[string]*fieldWin{}, shardOf: map[string]int{}, dropped: map[string]bool{},
 		place: map[string]string{}, fam: map[string]famKey{}, gen: map[famKey]int{}, meta: map[string]contribMeta{},
-		sinceOpen: map[string]map[string]bool{}, fieldIdx: map[string]map[string]int{}, memIdx: map[famKey]map[int]bool{}}
+		sinceOpen: map[string]map[string]bool{}, fieldIdx: map[string]map[string]int{}, memIdx: map[famKey]map[int]bool{},
+		memSeries: map[string]map[string]bool{}}
 }
 
 func contribID(batch, point int, field string) string {
@@ -121,6 +126,11 @@ func (t *memTracker) add(points []node.Point, order []int) {
 		if t.fieldIdx[p.Metric] == nil {
 			t.fieldIdx[p.Metric] = map[string]int{}
 		}
+		msKey := fmt.Sprintf("%s|%d", p.Metric, sh)
+		if t.memSeries[msKey] == nil {
+			t.memSeries[msKey] = map[string]bool{}
+		}
+		t.memSeries[msKey][sk] = true
 		if t.memIdx[fk] == nil {
 			t.memIdx[fk] = map[int]bool{}
 		}
@@ -134,7 +144,7 @@ func (t *memTracker) add(points []node.Point, order []int) {
 			key := fmt.Sprintf("%d|%s|%s", family, sk, name)
 			id := contribID(b, i, name)
 			t.fam[id] = fk
-			t.meta[id] = contribMeta{p.Metric, slot, name}
+			t.meta[id] = contribMeta{p.Metric, sk, slot, name}
 			if t.sinceOpen[p.Metric] == nil {
 				t.sinceOpen[p.Metric] = map[string]bool{}
 			}
@@ -272,16 +282,62 @@ func (t *memTracker) hidden() map[string]bool {
 
 // altModel builds a variation of the reference: window = without the contributions behind an end offset, places = one
 // pseudo series per place. It returns nil when the variation equals the reference.
+// block is what one table file holds of one metric in one family, as far as the tracker followed it.
+type block struct {
+	lo, hi int
+	fields map[string]bool
+	series map[string]bool
+}
+
+// fileBlocks returns, per family, the table blocks of the metric.
+func (t *memTracker) fileBlocks(metric string) map[famKey]map[string]*block {
+	out := map[famKey]map[string]*block{}
+	for id, pl := range t.place {
+		if !strings.HasPrefix(pl, "f") || t.dropped[id] {
+			continue
+		}
+		mt := t.meta[id]
+		if mt.metric != metric {
+			continue
+		}
+		fk := t.fam[id]
+		if out[fk] == nil {
+			out[fk] = map[string]*block{}
+		}
+		b := out[fk][pl]
+		if b == nil {
+			b = &block{lo: mt.slot, hi: mt.slot, fields: map[string]bool{}, series: map[string]bool{}}
+			out[fk][pl] = b
+		}
+		if mt.slot < b.lo {
+			b.lo = mt.slot
+		}
+		if mt.slot > b.hi {
+			b.hi = mt.slot
+		}
+		b.series[mt.series] = true
+		if mt.field == "__hist" {
+			for _, hf := range []string{"HistogramSum", "HistogramCount", "HistogramMin", "HistogramMax", "__bucket"} {
+				b.fields[hf] = true
+			}
+		} else {
+			b.fields[mt.field] = true
+		}
+	}
+	return out
+}
+
 // reopened: the process level in-memory metadata starts empty again.
 func (t *memTracker) reopened() {
 	t.sinceOpen = map[string]map[string]bool{}
 	t.fieldIdx = map[string]map[string]int{}
 	t.memIdx = map[famKey]map[int]bool{}
+	t.memSeries = map[string]map[string]bool{}
 }
 
 // memFamiliesWithoutFields lists the families that hold unflushed data of the metric in slots [lo,hi] of the family
 // while none of the given fields has been written for the metric since the engine was opened.
-func (t *memTracker) memFamiliesWithoutFields(metric string, fields []string, slotsOf func(fk famKey) (lo, hi int, ok bool)) map[famKey]bool {
+func (t *memTracker) memFamiliesWithoutFields(metric string, fields []string, selected map[string]bool, slotsOf func(fk famKey) (lo, hi int, ok bool)) map[famKey]bool {
 	out := map[famKey]bool{}
 	type rng struct{ lo, hi int }
 	mem := map[famKey]*rng{}
@@ -314,7 +370,17 @@ func (t *memTracker) memFamiliesWithoutFields(metric string, fields []string, sl
 				has = true
 			}
 		}
-		if !has {
+		// is any selected series in the shard's memory series index of the metric?
+		hasSeries := false
+		for sk := range t.memSeries[fmt.Sprintf("%s|%d", metric, fk.shard)] {
+			if selected[sk] {
+				hasSeries = true
+			}
+		}
+		if os.Getenv("C11_VERBOSE") != "" {
+			fmt.Println("        filedrop?", metric, fields, "family", fk, "mem slots", r.lo, r.hi, "query slots", lo, hi, "buffer", has, "series", hasSeries, "fieldIdx", t.fieldIdx[metric], "memIdx", t.memIdx[fk])
+		}
+		if !has || !hasSeries {
 			out[fk] = true
 		}
 	}
